@@ -155,11 +155,11 @@ def fastaPrint (w : Nat) : List (Str × Str) → List Str
 /-- Two's-complement store into `int8`. -/
 def wrap8 (x : Int) : Int := (x + 128) % 256 - 128
 
-/-- `_scores_to_score_str`: `(scores + offset).astype(int8).tobytes().decode("ascii")`;
-a byte ≥ 128 raises `UnicodeDecodeError`. -/
+/-- `_scores_to_score_str` (repaired): `scores + offset` in int64, a value outside the ASCII range
+`0..127` is rejected (`ValueError`) instead of being wrapped into `int8`. -/
 def encodeScores (off : Int) (qs : List Int) : Except Err Str :=
-  qs.mapM (fun q => let b := wrap8 (q + off)
-                    if b < 0 then .error (.other "UnicodeDecodeError") else .ok (Char.ofNat b.toNat))
+  qs.mapM (fun q => let b := q + off
+                    if b < 0 ∨ 127 < b then .error .valueError else .ok (Char.ofNat b.toNat))
 
 /-- `_score_str_to_scores`: `frombuffer(bytearray(s, "ascii"), int8) - offset` (in `int8`);
 non-ASCII raises `UnicodeEncodeError`; an offset outside `int8` raises `OverflowError` (numpy 2). -/
